@@ -170,33 +170,42 @@ def gen_c04(rng, tier):
     return cases
 
 
+def stun_sweep_frames(rng, w, dports=(3478, 65535, 0), flagset=None):
+    """answered STUN requests over UDP/IPv4 and UDP/IPv6: every CHANGE-REQUEST flag word, one or two CHANGE-REQUEST
+    attributes, with / without magic cookie (the cookie-bearing form padded beyond 256 attribute bytes so that the
+    matcher identifies it, K2), plus one request of every other protocol over UDP and as a first TCP segment"""
+    frames = []
+    for v6 in (False, True):
+        for dport in tuple(dports) + (rng.u16(),):
+            for flags in (flagset or (list(range(8)) + [0xffffffff, 0x80000002, 0x106])):
+                for second in (None, 2, 4):
+                    attrs = gen.stun_attr(3, struct.pack('>I', flags))
+                    if second is not None:
+                        attrs += gen.stun_attr(0x8022, b'abcd') + gen.stun_attr(3, struct.pack('>I', second))
+                    for cookie_ in (b'\x21\x12\xa4\x42', rng.bytes(4)):
+                        a = attrs + (gen.stun_attr(0x8022, bytes(252)) if cookie_[0] == 0x21 else b'')
+                        if cookie_[0] != 0x21 and second is not None:
+                            continue   # the cookie-less form is only identified with exactly one CHANGE-REQUEST
+                        st = b'\x00\x01' + struct.pack('>H', len(a)) + cookie_ + rng.bytes(12) + a
+                        frames.append(w.udp_frame(v6, rng.u16(), dport, st))
+        for kind in ('http', 'ssh', 'ghost', 'dns', 'rpc', 'smb1', 'smb2'):
+            pl = gen.gen_app(rng, tcp=False, kinds=[kind])[2]
+            frames.append(w.udp_frame(v6, rng.u16(), rng.u16(), pl))
+            frames.append(w.data_frame(v6, rng.u16(), rng.u16(), rng.u32(), gen.gen_app(rng, tcp=True, kinds=[kind])[2]))
+        # STUN over TCP: the cookie-bearing long form as the first data segment of a flow, with change-port requests
+        for flags in (0, 2, 4, 6):
+            a = gen.stun_attr(3, struct.pack('>I', flags)) + gen.stun_attr(0x8022, bytes(252))
+            st = b'\x00\x01' + struct.pack('>H', len(a)) + b'\x21\x12\xa4\x42' + rng.bytes(12) + a
+            frames.append(w.data_frame(v6, rng.u16(), rng.choice([3478, 65535, rng.u16()]), rng.u32(), st))
+    return frames
+
+
 def gen_c03(rng, tier):
-    """mixed frames + a systematic sweep of answered requests: every CHANGE-REQUEST flag word 0..7 (and a few larger),
-    one or two CHANGE-REQUEST attributes, with/without magic cookie, UDP over IPv4/IPv6, destination ports
-    incl. 65535 (wrap), plus one request of every other protocol, from both handled addresses"""
+    """mixed frames + a systematic sweep of answered requests (see stun_sweep_frames), with and without self list"""
     cases = gen_mixed(rng, tier)
     for selfmode in (True, False):
         w = World(rng, selfmode=selfmode, denymode=False)
-        frames = []
-        for v6 in (False, True):
-            for dport in (3478, 65535, 0, rng.u16()):
-                for flags in list(range(8)) + [0xffffffff, 0x80000002, 0x106]:
-                    for second in (None, 2, 4):
-                        attrs = gen.stun_attr(3, struct.pack('>I', flags))
-                        if second is not None:
-                            attrs += gen.stun_attr(0x8022, b'abcd') + gen.stun_attr(3, struct.pack('>I', second))
-                        for cookie_ in (b'\x21\x12\xa4\x42', rng.bytes(4)):
-                            # pad the cookie-bearing form beyond 256 attribute bytes so that the matcher identifies it (K2)
-                            a = attrs + (gen.stun_attr(0x8022, bytes(252)) if cookie_[0] == 0x21 else b'')
-                            if cookie_[0] != 0x21 and second is not None:
-                                continue   # the cookie-less form is only identified with exactly one CHANGE-REQUEST
-                            st = b'\x00\x01' + struct.pack('>H', len(a)) + cookie_ + rng.bytes(12) + a
-                            frames.append(w.udp_frame(v6, rng.u16(), dport, st))
-            for kind in ('http', 'ssh', 'ghost', 'dns', 'rpc', 'smb1', 'smb2'):
-                pl = gen.gen_app(rng, tcp=False, kinds=[kind])[2]
-                frames.append(w.udp_frame(v6, rng.u16(), rng.u16(), pl))
-                frames.append(w.data_frame(v6, rng.u16(), rng.u16(), rng.u32(), gen.gen_app(rng, tcp=True, kinds=[kind])[2]))
-        cases.append(case(w, frames, ['stun-change-request-sweep', 'self-list' if selfmode else 'no-self-list']))
+        cases.append(case(w, stun_sweep_frames(rng, w), ['stun-change-request-sweep', 'self-list' if selfmode else 'no-self-list']))
     return cases
 
 
@@ -234,6 +243,12 @@ def gen_c02(rng, tier):
                 frames.append(eth(dm, w.cl_mac, 0x0800, ipv4(w.cl4, d, 17, lib.udp(4000, 53, dns, src=w.cl4, dst=d))))
                 frames.append(eth(dm, w.cl_mac, 0x0806, arp(1, w.cl_mac, w.cl4, bytes(6), d)))
         cases.append(case(w, frames, ['destination-sweep', 'self-list' if selfmode else 'no-self-list']))
+    # self-IP lists of every shape (one address per family, a single family, three of a family) with the requests
+    # that make a responder rewrite addresses or ports (STUN CHANGE-REQUEST flags incl. change-IP)
+    for shape in range(6):
+        w = World(rng, selfmode=True, denymode=False)
+        w.self = [[w.my4, w.my6], [w.my4], [w.my6], [w.my4, w.my6, w.my6b], [w.my4, w.my4b, w.my6], [w.my4, w.my6, w.my4b, w.my6b]][shape]
+        cases.append(case(w, stun_sweep_frames(rng, w, dports=(3478,), flagset=(0, 2, 4, 6)), ['self-list-shape-%d' % shape]))
     return cases
 
 
@@ -294,12 +309,21 @@ def gen_flows(rng, tier, nflows=4, steps=60):
         w = World(rng, selfmode=rng.chance(1, 2), denymode=False, key=rng.choice([(0, 0), (rng.next(), rng.next())]))
         flows = []
         for _ in range(1 + rng.below(nflows)):
-            flows.append([rng.chance(1, 2), rng.u16(), rng.u16(), rng.u32(), b''])   # v6, sport, dport, seq, pending remainder
+            flows.append([rng.chance(1, 2), rng.u16(), rng.u16(), rng.u32(), b'', False])   # v6, sport, dport, seq, pending remainder, second address
+        # relatives of a flow: same endpoints towards the second handled address; same ports in the other IP version
+        if rng.chance(1, 2):
+            f0 = flows[0]
+            flows.append([f0[0], f0[1], f0[2], rng.u32(), b'', True])
+            if rng.chance(1, 2):
+                flows.append([not f0[0], f0[1], f0[2], rng.u32(), b'', False])
         frames = []
+        prev = None
         for _ in range(steps):
-            fl = rng.choice(flows)
-            v6, sport, dport, seq, pending = fl
-            s, d = w.addrs(v6)
+            # relatives tend to follow each other directly (one-entry caches keyed by part of the tuple show there)
+            fl = rng.choice(flows) if prev is None or rng.chance(2, 3) else rng.choice([x for x in flows if x[1] == prev[1]] or flows)
+            prev = fl
+            v6, sport, dport, seq, pending, second = fl
+            s, d = w.addrs(v6, second)
             ck = w.cookie(s, d, sport, dport)
             # acknowledgement numbers of non-data segments: the valid cookie+1 is as likely as a random value
             some_ack = rng.choice([(ck + 1) & 0xffffffff, (ck + 1) & 0xffffffff, (ck + 1 + rng.below(400)) & 0xffffffff, rng.u32()])
@@ -315,20 +339,20 @@ def gen_flows(rng, tier, nflows=4, steps=60):
                     else:
                         pl = pl[:rng.choice([len(pl), len(pl), len(pl), 1, 0, 3])]
                 ackd = rng.choice([1, 1, 1, 1, 1, 0, 2, 0x80000000, 0xffffffff])
-                frames.append(w.tcp_frame(v6, sport, dport, seq, (ck + ackd) & 0xffffffff, rng.choice([0x18, 0x18, 0x18, 0x19, 0x38, 0x1a]), pl))
+                frames.append(w.tcp_frame(v6, sport, dport, seq, (ck + ackd) & 0xffffffff, rng.choice([0x18, 0x18, 0x18, 0x19, 0x38, 0x1a]), pl, second=second))
                 fl[3] = (seq + len(pl)) & 0xffffffff
             elif k == 4:
-                frames.append(w.tcp_frame(v6, sport, dport, seq, 0, 0x18, b'x'))          # ack = 0
+                frames.append(w.tcp_frame(v6, sport, dport, seq, 0, 0x18, b'x', second=second))          # ack = 0
             elif k == 5:
-                frames.append(w.tcp_frame(v6, sport, dport, seq, some_ack, 0x02))
+                frames.append(w.tcp_frame(v6, sport, dport, seq, some_ack, 0x02, second=second))
             elif k == 6:
-                frames.append(w.tcp_frame(v6, sport, dport, seq, some_ack, 0x11))
+                frames.append(w.tcp_frame(v6, sport, dport, seq, some_ack, 0x11, second=second))
             elif k == 7:
-                frames.append(w.tcp_frame(v6, sport, dport, seq, some_ack, rng.choice([0x10, 0x04, 0x14])))
+                frames.append(w.tcp_frame(v6, sport, dport, seq, some_ack, rng.choice([0x10, 0x04, 0x14]), second=second))
             elif k == 8:
-                frames.append(w.tcp_frame(v6, sport, dport, seq, some_ack, rng.below(512), rng.bytes(rng.below(5))))
+                frames.append(w.tcp_frame(v6, sport, dport, seq, some_ack, rng.below(512), rng.bytes(rng.below(5)), second=second))
             elif k == 9:
-                frames.append(w.udp_frame(v6, sport, dport, gen.gen_app(rng)[2]))
+                frames.append(w.udp_frame(v6, sport, dport, gen.gen_app(rng)[2], second=second))
             elif k == 10:
                 frames.append(gen.gen_frame(rng, w)[1])
             else:
@@ -581,8 +605,8 @@ def gen_appcases(kinds, tcp=None, v6=None, per=400, mutate_ratio=6):
     def g(rng, tier):
         cases = []
         n = 20 if tier == 'quick' else 500
-        for _ in range(n):
-            w = World(rng, selfmode=False, denymode=False)
+        for wi in range(n):
+            w = World(rng, selfmode=False, denymode=False, level=['off', 'warn', 'trace', 'off', 'debug'][wi % 5])
             ops = []
             tags = {}
             for _ in range(per):
@@ -622,6 +646,17 @@ def gen_appcases(kinds, tcp=None, v6=None, per=400, mutate_ratio=6):
                         if cpos > pos:
                             ops.append(app_op(rng, w, pl[pos:cpos], tcp=True, v6=v, sport=sp, dport=dp, cookie=ck, meta={'mode': 'stream'}))
                         pos = cpos
+                elif shape == 3 and kind == 'http' and tcp is not False:
+                    # bytes in front of a complete request on the same flow (the stream then starts with an unknown method):
+                    # judged on the cumulative stream (cuts inside the request itself are C11's subject, K3)
+                    _ck[0] += 1
+                    ck = _ck[0]
+                    v = rng.chance(1, 2)
+                    sp, dp = rng.u16(), rng.u16()
+                    parts = [rng.choice([b'X', b'x', b'\r\n', b'G', b'GE', b'PO', rng.bytes(1 + rng.below(3))]), pl]
+                    for part in parts:
+                        if part:
+                            ops.append(app_op(rng, w, part, tcp=True, v6=v, sport=sp, dport=dp, cookie=ck, meta={'mode': 'stream'}))
                 elif shape == 2:
                     # through the real layers 2-4: UDP frame or first TCP data segment, boundary ports included
                     v = rng.chance(1, 2)
@@ -683,6 +718,10 @@ def gen_c10(rng, tier):
         if rng.chance(1, 3):
             # the same string through proto::repl (datagram, or first segment of a fresh flow)
             aops.append(app_op(rng, w, s, tcp=rng.chance(1, 2)))
+        elif rng.chance(1, 4):
+            # ... and through the real UDP layer, to well-known and boundary destination ports
+            v = rng.chance(1, 2)
+            aops.append(('F', w.udp_frame(v, rng.u16(), rng.choice([53, 53, 3478, 111, 80, 22, 445, 0, 65535, rng.u16()]), s)))
     c = acase(w, ops, ['matcher'])
     cases.append(c)
     cases.append(acase(w, aops, ['matcher-strings-through-repl']))
@@ -1281,19 +1320,25 @@ def explore_c11(prop, pd, tier, rng, corpus_cases):
     cases = []
     sport = [2000]
 
-    def flow_case(s, cuts, tag):
+    def flow_case(s, cuts, tag, acks=False):
         sport[0] = (sport[0] + 1) % 60000 + 2000
         frames = []
+        skip = set()
         seq = 5
         pos = 0
+        ck = w.cookie(w.cl4, w.my4, sport[0], 80)
         for cpos in list(cuts) + [len(s)]:
             part = s[pos:cpos]
             if part:
                 frames.append(w.data_frame(False, sport[0], 80, seq, part))
                 seq = (seq + len(part)) & 0xffffffff
+                if acks and cpos < len(s):
+                    # what a real client sends between its data segments: a bare ACK (window update / duplicate ACK)
+                    skip.add(len(frames))
+                    frames.append(w.tcp_frame(False, sport[0], 80, seq, (ck + 1) & 0xffffffff, 0x10))
             pos = cpos
         c = case(w, frames, [tag])
-        c['stream'], c['cuts'] = s, tuple(cuts)
+        c['stream'], c['cuts'], c['skip'] = s, tuple(cuts), skip
         return c
     groups = []
     for kind, s in streams:
@@ -1313,6 +1358,8 @@ def explore_c11(prop, pd, tier, rng, corpus_cases):
                 cutsets.append(tuple(cs))
         for cs in cutsets:
             g['segs'].append(flow_case(s, cs, 'cuts%d' % len(cs)))
+        for cs in cutsets[::7][:40]:
+            g['segs'].append(flow_case(s, cs, 'cuts%d-acks' % len(cs), acks=True))
         groups.append(g)
         cases += [g['whole']] + g['prefixes'] + g['segs']
     # large requests (complete exactly at their last byte): MSS-sized segments, cuts around power-of-two
@@ -1354,7 +1401,7 @@ def explore_c11(prop, pd, tier, rng, corpus_cases):
             trigger = g['trigger']
         for c in g['segs']:
             evaluations += 1
-            obs = [seg_kind(b) for b in c['impl'][2:]]
+            obs = [seg_kind(b) for k, b in enumerate(c['impl'][2:]) if k not in c.get('skip', ())]
             bounds = list(c['cuts']) + [len(s)]
             ok, why = True, ''
             start = 0
@@ -1424,8 +1471,14 @@ def explore_c19(prop, pd, tier, rng, corpus_cases):
     # frame level: the same UDP payload through real frames, including the source port for which the request's
     # UDP checksum field is 0xFFFF (computed 0) and, over IPv4, a request without checksum (field 0)
     fgroups = []
-    for _ in range(8 if tier == 'quick' else 60):
-        kind, fault, pl = gen.gen_app(rng, tcp=False, kinds=['dns', 'stun', 'rpc', 'http', 'ssh'])
+    for gi in range(16 if tier == 'quick' else 120):
+        kind, fault, pl = gen.gen_app(rng, tcp=False, kinds=['dns', 'stun', 'rpc', 'http', 'ssh', 'stun'])
+        if gi % 4 == 0:
+            # cookie-less STUN forms (identified only as exactly 20 / 28 bytes), zero and random transaction ids, change flags
+            tid = rng.choice([bytes(16), rng.bytes(16), bytes(8) + rng.bytes(8)])
+            kind, fault = 'stun', 'classic'
+            pl = rng.choice([b'\x00\x01\x00\x00' + tid,
+                             b'\x00\x01\x00\x08' + tid + b'\x00\x03\x00\x04' + struct.pack('>I', rng.choice([0, 2, 4, 6]))])
         variants = []
         for v6 in (False, True):
             s_, d_ = w.addrs(v6)
@@ -1441,6 +1494,10 @@ def explore_c19(prop, pd, tier, rng, corpus_cases):
                 variants.append(len(ops) - 1)
             if not v6:
                 ops.append(('F', w.f4(17, udp(rng.u16(), dport, pl))))       # checksum field 0: no checksum
+                variants.append(len(ops) - 1)
+            # the same datagram to well-known and boundary destination ports, and to the second handled address
+            for dp in (53, 3478, 111, 80, 22, 445, 0, 1, 65534, 65535):
+                ops.append(('F', w.udp_frame(v6, rng.u16(), dp, pl, second=rng.chance(1, 4))))
                 variants.append(len(ops) - 1)
         fgroups.append((kind, fault, pl, variants))
     if w.key == (0, 0) or True:
